@@ -427,6 +427,22 @@ func (v *vCtx) runOp(ctx context.Context, op map[string]any) (res map[string]any
 		}
 		res["closed"] = closed
 		return
+	case "parse_interval":
+		d, err := sqltypes.ParsePostgreSQLInterval(op["s"].(string))
+		if err != nil {
+			res["err"] = err.Error()
+		}
+		res["ns"] = fmt.Sprint(int64(d))
+		var iv sqltypes.Interval
+		if v, ok := op["roundtrip_ns"]; ok {
+			val, _ := sqltypes.Interval(vInt(v)).Value()
+			res["text"] = fmt.Sprint(val)
+			if err := iv.Scan(val); err != nil {
+				res["scan_err"] = err.Error()
+			}
+			res["scanned_ns"] = fmt.Sprint(int64(iv))
+		}
+		return
 	case "filter_roundtrip":
 		src := op["src"].(string)
 		f, err := filter.Parser.ParseString("replay", src)
